@@ -519,12 +519,11 @@ Proof.
     { apply existsb_exists. exists l4. split; [|exact M4].
       eapply Permutation_in; [apply Permutation_sym; exact Pv|].
       unfold store'. eapply nth_error_In. apply nth_error_set_nth. apply nth_error_Some. congruence. }
-    assert (Eops : ops = [OpWrite (file ++ tmp_suffix) (file_content file view); OpRename (file ++ tmp_suffix) file]).
+    assert (Eops : ops = save_seq file (file_content file view)).
     { pose proof (save_ops_single o file view Ha Fv) as S. rewrite <- Sv, Mv in S. exact S. }
     assert (Eaf : af = true).
     { pose proof (save_af_single o file view Ha Fv) as S. rewrite <- Sv, Mv in S. exact S. }
-    subst ops af. rewrite disk_after_paired by exact P1. cbn [app disk_after].
-    rewrite !str_eqb_refl. cbn [andb].
+    subst ops af. rewrite disk_after_paired by exact P1. rewrite disk_after_save_seq. cbn [disk_after].
     rewrite <- (file_content_blocks file view Wv Fv).
     (* all raw lines are terminated *)
     assert (Rall : Forall (fun r => ends_nl r = true) (flat_map l_raw (s_store s1))).
